@@ -6,6 +6,8 @@ import (
 	"database/sql"
 	"fmt"
 	"math/rand"
+	"net/http"
+	"net/http/httptest"
 	"sort"
 	"strings"
 	"sync"
@@ -23,6 +25,7 @@ import (
 	obskeyperdb "github.com/shutter-network/rolling-shutter/rolling-shutter/chainobserver/db/keyper"
 	corekeyperdb "github.com/shutter-network/rolling-shutter/rolling-shutter/keyper/database"
 	"github.com/shutter-network/rolling-shutter/rolling-shutter/keyper/epochkghandler"
+	"github.com/shutter-network/rolling-shutter/rolling-shutter/keyper/kprapi"
 	"github.com/shutter-network/rolling-shutter/rolling-shutter/keyperimpl/shutterservice"
 	servicedb "github.com/shutter-network/rolling-shutter/rolling-shutter/keyperimpl/shutterservice/database"
 	"github.com/shutter-network/rolling-shutter/rolling-shutter/keyperimpl/shutterservice/serviceztypes"
@@ -140,6 +143,10 @@ type Node struct {
 	rec     *recorder
 	keysH   p2p.MessageHandler
 	verifyC map[string]int
+	// the keyper's HTTP API as KeyperCore.getServices builds it when HTTPEnabled (nil otherwise)
+	api             *kprapi.Server
+	router          http.Handler
+	manualByDefault bool
 
 	Watchdog time.Duration
 }
@@ -215,6 +222,21 @@ func (n *Node) Reset(u *Uni) error {
 	n.U = u
 	n.W.Configure(u)
 	n.srv.Restore(n.base)
+	// the HTTP settings come from a config file parsed by the repository's config machinery
+	parsed, err := ParsedConfig(u.Http, u.Ro)
+	if err != nil {
+		return err
+	}
+	n.cfg.HTTPEnabled, n.cfg.HTTPReadOnly, n.cfg.HTTPListenAddress = parsed.HTTPEnabled, parsed.HTTPReadOnly, parsed.HTTPListenAddress
+	n.cfg.MaxNumKeysPerMessage = parsed.MaxNumKeysPerMessage
+	if n.manualByDefault, err = ManualEnabledByDefault(); err != nil {
+		return err
+	}
+	n.api, n.router = nil, nil
+	if core := CoreConfig(n.cfg); core.HTTPEnabled {
+		n.api = kprapi.NewHTTPService(n.pool, core, n.rec)
+		n.router = kprapi.VerifRouter(n.api)
+	}
 	n.newKeyper()
 	core := corekeyperdb.New(n.pool)
 	obs := obskeyperdb.New(n.pool)
@@ -242,7 +264,7 @@ func (n *Node) Reset(u *Uni) error {
 // (membership, activation) and from the concretiser's chain; registration data is what the driver
 // will insert.
 func (n *Node) ObservedUni() Uni {
-	o := Uni{Member: []bool{false, false}, Act: []int{-1, -1}, Gen: append([]int{}, n.U.Gen...), Ids: append([]IdSpec{}, n.U.Ids...), Trg: append([]TrgSpec{}, n.U.Trg...)}
+	o := Uni{Member: []bool{false, false}, Act: []int{-1, -1}, Gen: append([]int{}, n.U.Gen...), Http: n.cfg.HTTPEnabled, Ro: n.U.Ro, Wd: n.manualByDefault, Ids: append([]IdSpec{}, n.U.Ids...), Trg: append([]TrgSpec{}, n.U.Trg...)}
 	me := shdb.EncodeAddress(n.cfg.GetAddress())
 	n.srv.View(func(db *fakepg.DB) {
 		for _, bc := range db.TendermintBatchConfig {
@@ -331,6 +353,7 @@ type Result struct {
 	Out   []TrigOut
 	Err   string
 	Panic string
+	Code  int // HTTP status of a manual trigger request (0: other ops)
 }
 
 // Apply executes one op on the real code under recover and a watchdog.
@@ -434,6 +457,8 @@ func (n *Node) apply(op Op) Result {
 		r.Err = n.release(op.Ids)
 	case "restart":
 		n.newKeyper()
+	case "manual":
+		r.Code, r.Out, r.Err = n.manual(op.A)
 	default:
 		r.Err = "harness: unknown op " + op.K
 	}
@@ -447,6 +472,41 @@ func (n *Node) apply(op Op) Result {
 		r.Out = []TrigOut{}
 	}
 	return r
+}
+
+// manual POSTs a decryption trigger for one identity (block number = activation block of the set it
+// belongs to) to the real API router; a request that passes the gate appears on the API's trigger
+// channel, which KeyperCore.getServices fans into the key share handler.
+func (n *Node) manual(x int) (int, []TrigOut, string) {
+	if n.router == nil {
+		return 0, nil, "harness: HTTP API not enabled"
+	}
+	set := 0
+	if x <= n.W.NI {
+		set = n.U.Ids[x-1].Set
+	} else {
+		set = n.U.Trg[x-n.W.NI-1].Set
+	}
+	body := fmt.Sprintf(`{"epoch_id": "0x%x", "block_number": %d}`, n.W.Identity[x], n.U.Act[set-1])
+	req := httptest.NewRequest(http.MethodPost, "/v1/decryptionTrigger", strings.NewReader(body))
+	req.Header.Set("Content-Type", "application/json")
+	ctx, cancel := context.WithTimeout(n.ctx, n.Watchdog)
+	defer cancel()
+	req = req.WithContext(ctx)
+	rec := httptest.NewRecorder()
+	done := make(chan struct{})
+	go func() {
+		defer close(done)
+		n.router.ServeHTTP(rec, req)
+	}()
+	var out []TrigOut
+	select {
+	case ev := <-n.api.GetDecryptionTriggerChannel():
+		out = append(out, n.handleTrigger(ev))
+		<-done
+	case <-done:
+	}
+	return rec.Code, out, ""
 }
 
 func (n *Node) handleTrigger(ev *broker.Event[*epochkghandler.DecryptionTrigger]) TrigOut {
